@@ -96,6 +96,18 @@ func (r *Run) send(req *simnet.Request, faults []Fault, defFrag string) *Resp {
 			}
 		}
 	}
+	if r.Plan.Config.AmzDate {
+		// a client whose clock agrees with the server's, whatever that clock does
+		has := false
+		for _, h := range req.Headers {
+			if strings.EqualFold(h[0], "x-amz-date") {
+				has = true
+			}
+		}
+		if !has {
+			req.Headers = append(req.Headers, [2]string{"X-Amz-Date", r.Env.Clock.Now().UTC().Format("20060102T150405Z")})
+		}
+	}
 	if r.Plan.Config.LateEOF {
 		req.LateEOF = true
 		if len(req.Body) > 0 {
